@@ -13,7 +13,7 @@ CHECKS = {
          "Exploration: all big/little-endian primitive pairs instantiated for every prefix and element type are driven with generated values, and every numeric token (scalar, count, element, text length, computed length, computed checksum) of every message type is located by the pinned schema and checked for the module's byte order. Holds on the executions observed.",
          "Token positions come from the pinned schema; the per-module byte order is data of the oracle (no per-field override exists in the schema format).", "§3 C03"),
  "C04": ("runtime invariant monitor on frame encodes: length token vs. appended bytes vs. object field vs. reference body length, under 9 buffer histories and stale caller values",
-         "Exploration: every self-measuring frame type × every registered body type × 5 body kinds × 9 buffer histories × 5 stale caller values (thorough: repeated with fresh random content and >8 MiB frames); the whole check re-runs in a child with the checksum registry emptied and in a child whose services read their input buffer to the end. Holds on the executions observed.",
+         "Exploration: every self-measuring frame type × every registered body type × 5 body kinds × 9 buffer histories × 5 stale caller values (thorough: repeated with fresh random content and >8 MiB frames); caller-supplied body types (plain and refusing) in every frame; the whole check re-runs in a child with the checksum registry emptied and in a child whose services read their input buffer to the end. Holds on the executions observed.",
          "Frame header positions come from the pinned schema.", "§3 C04"),
  "C05": ("runtime invariant monitor on frame encodes: trailer vs. object field vs. own byte-sum / bitwise CRC-32 over exactly the appended frame bytes, under 9 buffer histories",
          "Exploration: every checksummed frame type × every registered body type × body kinds × buffer histories (prior content, partly consumed, reallocation) × stale values; the checksum span is pinned to the bytes this Encode appended; frames whose CRC-32 is exactly 0, 1, 0xFFFFFFFF or the stale value are constructed by solving the CRC over GF(2); re-run with services that read their input buffer to the end. Holds on the executions observed.",
@@ -25,10 +25,10 @@ CHECKS = {
          "Exploration: all 170 types × generated canonical values × 4 kinds of trailing bytes, plus mixed-type streams (concatenated and through one shared send buffer) decoded by n successive calls. Holds on the executions observed.",
          "Trusts bytes.Buffer; values come from the canonical generator.", "§3 C07"),
  "C08": ("runtime differential monitor: decode of wire-level (encoder-unreachable) and mutated images, re-encode, byte comparison with the consumed bytes (computed tokens must be correct)",
-         "Exploration: images built token by token from the pinned schema (arbitrary pad placement, interior NUL, -0/sNaN, garbage or correct computed fields) and bit-flipped valid images; every accepted image is re-encoded and compared with the bytes consumed. Acceptance sets are sampled, not enumerated.",
+         "Exploration: images built token by token from the pinned schema (arbitrary pad placement, interior NUL, -0/sNaN, garbage or correct computed fields) and bit-flipped valid images; reference images at the prefix maxima; every accepted image is re-encoded and compared with the bytes consumed. Acceptance sets are sampled, not enumerated.",
          "Token positions of computed fields come from the pinned schema; own checksum implementations.", "§3 C08"),
  "C09": ("runtime monitor with panic trap, child-process isolation (RLIMIT_AS 2 GiB, pre-logged in-flight input) and an allocation-count step proxy on hostile inputs",
-         "Exploration: every decoder × random, truncated, bit-flipped, site-directed (every length/count/body-length token set to maximal and wrap-around values in both byte orders, also in receive buffers with 4 MiB spare capacity) and unknown-discriminator inputs, plus a run-time re-registration scenario per table; a panic, a dead child or more reader steps than 256+8·len refutes. Holds on the inputs observed.",
+         "Exploration: every decoder × random, truncated, bit-flipped, site-directed (every length/count/body-length token set to maximal and wrap-around values in both byte orders, also in receive buffers with 4 MiB spare capacity) and unknown-discriminator inputs, plus a run-time re-registration scenario per table; inputs shorter than the shortest possible message of the type must be rejected; a panic, a dead child, a nil result on such a short input, or more reader steps than 256+8·len refutes. Holds on the inputs observed.",
          "Step proxy relies on every reader loop iteration allocating at least once (true for binary.Read under the pinned toolchain; otherwise the bound only gets weaker, never a false alarm).", "§3 C09"),
  "C10": ("runtime allocation meter (runtime.MemStats.TotalAlloc delta around each Decode in a single-goroutine child) on site-directed hostile inputs",
          "Exploration: every length/count site of the schema is driven with maximal prefixes followed by 0/1/16 bytes or the valid remainder, plus random and legitimate large inputs; a legitimately large image is decoded before the small hostile one for the same key; alloc <= 32 KiB + 40·len(input). All 66 sites must be reached or the run is inconclusive.",
@@ -55,13 +55,13 @@ CHECKS = {
          "Exploration: every type × zero value, constructor result, arbitrary field contents, every registered key with nil body, unregistered keys, each nested pointer part nil, every text length 0..2200 and list count 0..1100, frames whose body must refuse (thorough: 70 000-element lists), into nine kinds of destination buffer; checksummed frames also with their service unregistered. A panic or a dead child refutes.",
          "Values with nil list elements or typed-nil bodies are excluded as the property says.", "§3 C17"),
  "C18": ("runtime monitor at the prefix limits: every prefixed writer and every prefixed field of every message at max and max+1 (u32 text via an untouched 4 GiB mapping and 2^32 zero-sized list entries, in a child)",
-         "Exploration at enumerated boundary points: all prefixed primitives × u8/u16 and defined types over them × {max-1,max,max+1,2max+1}; every prefixed field of every message type at max (round trip) and max+1 (must error), also along every path from an enclosing message down to such a field - list element, nested part, frame body, application extension, extension inside a body inside a frame - (the refusal must propagate to the outermost Encode); 2^32-byte texts and 2^32 zero-sized entries behind u32 prefixes.",
+         "Exploration at enumerated boundary points: all prefixed primitives × u8/u16 and defined types over them × {max-1,max,max+1,2max+1}; every prefixed field of every message type at max (round trip) and max+1 (must error), also along every path from an enclosing message down to such a field - list element, nested part, frame body, application extension, extension inside a body inside a frame - (the refusal must propagate to the outermost Encode); 2^32-byte texts and 2^32 zero-sized entries behind u32 prefixes; u32/u64 prefixes at small and boundary-crossing lengths must encode and round-trip.",
          "Field enumeration comes from the pinned schema.", "§3 C18"),
  "C19": ("linearizability checking (porcupine v1.3.0) of recorded concurrent histories of Registry/Get/Remove/Clear and of real frame encodes whose trailer reveals the registration they looked up, against a sequential map model; plus the Go race detector on the same workload",
          "Exploration over schedules: thousands of short, genuinely overlapping histories of Registry/Get/Remove/Clear with unique-id services are recorded at the client boundary and checked; the same workload runs under -race; drain histories (70 names removed one by one while others register); ten fresh processes start with Clear/Remove/Registry/Get on the built-in names as their very first registry calls, five of them with frame encodes/decodes in between while the name holds nothing, a built-in, or a service of another result type (library work never changes the registry). Holds on the histories and accesses observed.",
          "Monitors use no shared state inside the measured region; checker timeouts are inconclusive.", "§3 C19"),
  "C20": ("Go race detector plus result-equality oracle over 64 goroutines encoding/decoding private objects of all types; fresh-process first-use trials",
-         "Exploration over schedules: parallel results are compared with sequentially precomputed ones for all 170 types while the checksum registry and 18 discriminator maps are read concurrently and the four checksum services are also called directly, with aligned failing encodes in between; the workload runs in a plain, a -race and a registry-emptied child; -race build reports are counted from the log; first-use trials start every table's first access concurrently in fresh processes.",
+         "Exploration over schedules: parallel results are compared with sequentially precomputed ones for all 170 types while the checksum registry and 18 discriminator maps are read concurrently and the four checksum services are also called directly, with aligned failing encodes in between; 16 goroutines hammering different keys of one discriminator table at a time; the workload runs in a plain, a -race and a registry-emptied child; -race build reports are counted from the log; first-use trials start every table's first access concurrently in fresh processes.",
          "The race detector judges only accesses performed by the workload.", "§3 C20"),
 }
 NOT_YET = {}
